@@ -14,6 +14,7 @@ Contracts:
         out[i] += sum_t alpha_t k(x_i, c_t) with the documented squared-exponential forms, and every element of outd receives the
         derivative of that sum with respect to the input element at the same position (plus bounds and iteration independence)
 """
+import json
 import os
 import sys
 import warnings
@@ -467,6 +468,128 @@ def unit_baselines(ctx):
     ctx.assume("libxc (ctypes entry points get_lda/gga/mgga_baseline): energy per particle of an unspecified differentiable energy density B, v* = partial derivatives of B (libxc's documented convention); B itself uninterpreted")
 
 
+# ------------------------------------------------------------------------------------------ libxc_baselines.c: the call contract of libxc
+LIBXC_C = "xc_utils/libxc_baselines.c"
+LIBXC_ENTRY = {"get_lda_baseline": ("xc_lda_exc_vxc", ["size", "rho", "exc", "vrho"]),
+               "get_gga_baseline": ("xc_gga_exc_vxc", ["size", "rho", "sigma", "exc", "vrho", "vsigma"]),
+               # libxc's meta-GGA entry takes (rho, sigma, lapl, tau, ...): the laplacian slot receives rho as a placeholder (no functional used here reads it), v2lapl = NULL
+               "get_mgga_baseline": ("xc_mgga_exc_vxc", ["size", "rho", "sigma", "rho", "tau", "exc", "vrho", "vsigma", None, "vtau"])}
+
+
+def unit_libxc_c(fn):
+    """get_lda/gga/mgga_baseline (C): requires nothing of earlier calls; ensures the libxc evaluation is made with a functional object that was initialised
+    for THIS call's (fn_id, nspin) and carries THIS call's density threshold, on this call's arrays in libxc's argument order.  xc_func_init,
+    xc_func_set_dens_threshold, xc_func_end and xc_*_exc_vxc are external: contracts with ghost state (id, nspin, threshold) on the functional object.
+    File-scope variables have arbitrary entry values (any history of earlier calls); the ghost state of a file-scope functional object on entry is arbitrary too."""
+    def run(ctx):
+        from cvc import cparse
+        from cvc.csym import CSym, Arr, Ptr, CUnsupported, fresh
+        fq = ["lib/%s:%s" % (LIBXC_C, fn)]
+        tu = cparse.load(LIBXC_C)
+        entry, order = LIBXC_ENTRY[fn]
+        calls = []
+
+        def ghost_of(sym, a):
+            if not (isinstance(a, tuple) and a and a[0] == "addr"):
+                raise CUnsupported("functional object not passed by address")
+            name = a[1]
+            if name not in sym.ghost:
+                local = isinstance(a[2], dict) and name in a[2]
+                # a local object is uninitialised (distinct marker values); a file-scope one holds whatever an earlier call left
+                sym.ghost[name] = {k: (fresh("uninit_" + k, "I" if k != "thr" else "R") if local else fresh("entry_%s_%s" % (name, k), "I" if k != "thr" else "R")) for k in ("id", "nspin", "thr")}
+                sym.ghost[name]["file_scope"] = not local
+            return sym.ghost[name]
+
+        def cond(sym):
+            return tm.mk_and(*sym.guards) if sym.guards else tm.TRUE
+
+        def c_init(sym, args):
+            g = ghost_of(sym, args[0])
+            c = cond(sym)
+            for k, v in (("id", args[1]), ("nspin", args[2])):
+                g[k] = tm.mk_ite(c, tm.lift(v), g[k]) if c is not tm.TRUE else tm.lift(v)
+            return 0
+
+        def c_thr(sym, args):
+            g = ghost_of(sym, args[0])
+            c = cond(sym)
+            g["thr"] = tm.mk_ite(c, tm.lift(args[1]), g["thr"]) if c is not tm.TRUE else tm.lift(args[1])
+
+        def c_end(sym, args):
+            ghost_of(sym, args[0])
+
+        def c_eval(sym, args):
+            calls.append((dict((k, v) for k, v in ghost_of(sym, args[0]).items()), list(args[1:]), list(sym.guards)))
+        sy = CSym([tu], contracts={"xc_func_init": c_init, "xc_func_set_dens_threshold": c_thr, "xc_func_end": c_end, entry: c_eval})
+        I = lambda n_: tm.var(n_, "I")
+        args = {}
+        for pn, ty in tu.params(fn):
+            args[pn] = Ptr(Arr(pn)) if "*" in ty else (tm.var(pn) if "double" in ty else I(pn))
+        try:
+            sy.run(fn, args)
+        except CUnsupported as e:
+            ctx.undecided("%s summarised" % fn, str(e)[:200], fq)
+            return
+        ctx.holds("%s makes exactly one libxc evaluation, unconditionally" % fn, len(calls) == 1 and not calls[0][2], "%d calls" % len(calls), fq)
+        if len(calls) != 1:
+            return
+        g, cargs, _ = calls[0]
+        ok = len(cargs) == len(order)
+        for a, want in zip(cargs, order):
+            if want is None:
+                ok = ok and (a == 0 or a is None or (isinstance(a, tm.T) and a is tm.ZERO))
+            elif isinstance(args[want], Ptr):
+                ok = ok and isinstance(a, Ptr) and a.arr is args[want].arr and tm.lift(a.off) is tm.ZERO
+            else:
+                ok = ok and isinstance(a, tm.T) and a is args[want]
+        ctx.holds("%s passes its own arrays to %s in libxc's argument order" % (fn, entry), ok, str(cargs)[:200], fq)
+        goal = tm.mk_and(tm.mk_eq(g["id"], args["fn_id"]), tm.mk_eq(g["nspin"], args["nspin"]), tm.mk_eq(g["thr"], args["dens_threshold"]))
+        v = vc.decide_valid([], goal, ctx.timeout)
+        name = "%s evaluates a functional initialised for this call's (fn_id, nspin) and density threshold, whatever was called before" % fn
+        if v.status == "refuted":
+            rp = replay_libxc_history(fn)(v.witness)
+            if rp.get("reproduced"):
+                v.detail = "the functional object handed to libxc can be the one an earlier call initialised"
+                r = ctx._rec("obligation", name, v, fq)
+                r["replay"] = rp
+            else:
+                ctx.undecided(name, "solver state of the file-scope variables is not reached by the replayed two-call history (entry state is unconstrained): %s" % str(rp)[:200], fq)
+        else:
+            ctx._rec("obligation", name, v, fq)
+    return run
+
+
+def replay_libxc_history(fn):
+    """Two-call history on the compiled library in a fresh process: the same functional id evaluated with nspin=1 and then nspin=2, against nspin=2 alone."""
+    def replay(wit):
+        import subprocess
+        from pyvc import native
+        out = native.build_libs()
+        code = ("import ctypes, numpy as np, json, sys\n"
+                "lib = ctypes.CDLL(%r)\n"
+                "kind = %r\n"
+                "def ev(nspin, seed=1):\n"
+                "    rng = np.random.RandomState(seed); n = 5\n"
+                "    rho = np.asfortranarray(rng.rand(nspin, n) + 0.3); sig = np.asfortranarray(rng.rand(2 * nspin - 1, n) + 1.0); tau = np.asfortranarray(rng.rand(nspin, n) + 1.0)\n"
+                "    exc = np.zeros(n); vrho = np.zeros_like(rho); vs = np.zeros_like(sig); vt = np.zeros_like(tau)\n"
+                "    p = lambda a: a.ctypes.data_as(ctypes.c_void_p)\n"
+                "    if kind == 'get_lda_baseline': lib.get_lda_baseline(ctypes.c_int(1), ctypes.c_int(nspin), ctypes.c_int(n), p(rho), p(exc), p(vrho), ctypes.c_double(1e-10))\n"
+                "    elif kind == 'get_gga_baseline': lib.get_gga_baseline(ctypes.c_int(101), ctypes.c_int(nspin), ctypes.c_int(n), p(rho), p(sig), p(exc), p(vrho), p(vs), ctypes.c_double(1e-10))\n"
+                "    else: lib.get_mgga_baseline(ctypes.c_int(263), ctypes.c_int(nspin), ctypes.c_int(n), p(rho), p(sig), p(tau), p(exc), p(vrho), p(vs), p(vt), ctypes.c_double(1e-10))\n"
+                "    return exc.tolist()\n"
+                "if sys.argv[1] == 'history': ev(1)\n"
+                "print(json.dumps(ev(2)))\n") % (out + "/libxc_utils.so", fn)
+        res = {}
+        for mode in ("fresh", "history"):
+            cp = subprocess.run([sys.executable, "-c", code, mode], capture_output=True, text=True, timeout=120)
+            if cp.returncode != 0:
+                return {"reproduced": None, "error": cp.stderr[-300:]}
+            res[mode] = json.loads(cp.stdout.strip().splitlines()[-1])
+        dev = max(abs(a - b) for a, b in zip(res["fresh"], res["history"]))
+        return {"reproduced": bool(dev > 1e-12), "exc_nspin2_alone": res["fresh"][:3], "exc_nspin2_after_an_nspin1_call_with_the_same_functional": res["history"][:3], "max_abs_difference": dev}
+    return replay
+
+
 def units():
     u = []
     for mode in ("SEP", "NPOL", "POL"):
@@ -481,6 +604,8 @@ def units():
             u.append(("wrapper2-rhocut/%s/nspin%d" % (mode, nspin), unit_wrapper2(mode, nspin, "gga", True, rhocut=True)))
     u.append(("evaluators", unit_evaluators))
     u.append(("baselines", unit_baselines))
+    for fn in LIBXC_ENTRY:
+        u.append(("libxc-c/" + fn, unit_libxc_c(fn)))
     from contracts import ckernels
     for fn in ("evaluate_se_kernel", "evaluate_se_kernel_antisym", "evaluate_se_kernel_spin", "evaluate_se_kernel_spin_v2"):
         u.append(("c-kernel/" + fn, ckernels.unit_se_kernel(fn)))
